@@ -227,8 +227,31 @@ MODELS['std::cmp::PartialOrd::lt'] = _float_cmp('lt')
 MODELS['std::cmp::PartialOrd::le'] = _float_cmp('le')
 MODELS['std::cmp::PartialOrd::gt'] = _float_cmp('gt')
 MODELS['std::cmp::PartialOrd::ge'] = _float_cmp('ge')
-MODELS['std::cmp::PartialEq::eq'] = _float_cmp('eq')
-MODELS['std::cmp::PartialEq::ne'] = _float_cmp('ne')
+def _enum_eq(negate):
+    fl = _float_cmp('ne' if negate else 'eq')
+
+    def f(ctx):
+        it = ctx.interp
+
+        def val(v):
+            if isinstance(v, Ref):
+                return it.read(ctx.state, v.root, v.path)
+            return v
+        a, b = val(ctx.args[0]), val(ctx.args[1])
+        if isinstance(a, Enum) and isinstance(b, Enum) and a.path == b.path and \
+                all(not f_ for _, _, f_ in a.alts) and all(not f_ for _, _, f_ in b.alts):
+            c = FALSE
+            for ga, va, _ in a.alts:
+                for gb, vb, _ in b.alts:
+                    if va == vb:
+                        c = mk_or(c, mk_and(ga, gb))
+            return mk_not(c) if negate else c
+        return fl(ctx)
+    return f
+
+
+MODELS['std::cmp::PartialEq::eq'] = _enum_eq(False)
+MODELS['std::cmp::PartialEq::ne'] = _enum_eq(True)
 
 
 @model('std::cmp::Ord::min')
